@@ -8,6 +8,7 @@ import (
 	"fmt"
 	"math/rand"
 	"strings"
+	"sync"
 	"testing"
 	"time"
 
@@ -149,6 +150,7 @@ func TestProp(t *testing.T) {
 			runHistory(rep, ps, "c04-random", i, r, pl)
 		})
 	}
+	runBursts(rep, env, ps)
 	if env.Replay == "" {
 		runSharedTokenPairs(rep, env, ps)
 		runCrossUpstreamRevocation(rep, env, ps)
@@ -673,4 +675,149 @@ func runCrossUpstreamRevocation(rep *vh.Report, env vh.Env, ps *sut.ProxyStack) 
 	})
 	rep.Floor("cross_upstream_pairs_overlapped", 20)
 	rep.Floor("cross_upstream_left_group_refused", 20)
+}
+
+// runBursts: many sessions of DIFFERENT users on one upstream become due for revalidation (or
+// refresh) at the same moment and the authenticator is slow to answer, so all their checks are in
+// flight together. Each request that is served must have had its own confirming exchange, however
+// many others were waiting at the time. (Added after seeded change C04j - calls above 16 in flight
+// are shed locally and treated like a busy authenticator, i.e. the session is served on grace without
+// the authenticator having been asked - was missed: the histories are sequential per browser and
+// the fake authenticator answers at once.)
+func runBursts(rep *vh.Report, env vh.Env, ps *sut.ProxyStack) {
+	only, skip := env.Only("c04-burst")
+	if skip {
+		return
+	}
+	sizes := []int{8, 17, 24, 33, 48, 64, 96}
+	n := len(sizes) * env.Pick(1, 6)
+	vh.ForEach(n, 1, only, func(i int) { // one burst at a time: a burst is itself the concurrency
+		r := vh.CaseRNG(env.Seed, "c04-burst", i)
+		size := sizes[i%len(sizes)]
+		host, groupGated := "dom.sso.test", false
+		if r.Intn(2) == 0 {
+			host, groupGated = "grp.sso.test", true
+		}
+		kind := []string{"validate", "refresh"}[r.Intn(2)]
+		hold := make(chan struct{})
+		type member struct {
+			at, rt, nt, cookie string
+			rs             *sut.Resp
+		}
+		ms := make([]*member, size)
+		for k := range ms {
+			uid := sut.NewID()
+			email := "user" + uid + "@corp.test"
+			m := &member{at: "bat-" + uid, rt: "brt-" + uid, nt: "bnt-" + uid}
+			s := ps.Session(host, email, []string{"eng"})
+			s.AccessToken, s.RefreshToken = m.at, m.rt
+			s.ValidDeadline = time.Now().Add(-5 * time.Minute)
+			if kind == "refresh" {
+				s.RefreshDeadline = time.Now().Add(-5 * time.Minute)
+				a := sut.RefreshOK(m.nt, 3600)
+				a.Hold = hold
+				ps.Auth.Set("refresh", m.rt, a)
+			} else {
+				a := sut.ValidateOK()
+				a.Hold = hold
+				ps.Auth.Set("validate", m.at, a)
+			}
+			ps.Auth.Set("profile", m.at, sut.ProfileOK(email, []string{"eng", "other"}))
+			ps.Auth.Set("profile", m.nt, sut.ProfileOK(email, []string{"eng", "other"}))
+			m.cookie = ps.CookieName + "=" + ps.Seal(s)
+			ms[k] = m
+		}
+		var wg sync.WaitGroup
+		for _, m := range ms {
+			wg.Add(1)
+			go func(m *member) {
+				defer wg.Done()
+				m.rs = ps.Client.Do(sut.Req{Host: host, Target: "/burst", Cookies: []string{m.cookie}})
+			}(m)
+		}
+		// steering only: let the checks pile up at the authenticator before it answers
+		inflight := 0
+		for w := 0; w < 3000; w++ {
+			inflight = 0
+			for _, m := range ms {
+				if kind == "refresh" {
+					inflight += ps.Auth.Inflight("refresh", m.rt)
+				} else {
+					inflight += ps.Auth.Inflight("validate", m.at)
+				}
+			}
+			if inflight >= size {
+				break
+			}
+			time.Sleep(time.Millisecond)
+		}
+		time.Sleep(20 * time.Millisecond)
+		close(hold)
+		wg.Wait()
+		rep.Eval()
+		rep.Count("bursts", 1)
+		rep.Count(fmt.Sprintf("bursts_size_%d", size), 1)
+		if inflight > 16 {
+			rep.Count("bursts_with_more_than_16_checks_in_flight", 1)
+		}
+		rep.Distinct(fmt.Sprintf("burst|%s|%s|size=%d|piled=%v", host, kind, size, inflight >= size))
+		for _, m := range ms {
+			var primary []sut.AuthCall
+			if kind == "refresh" {
+				primary = ps.Auth.Calls("refresh", m.rt)
+				ps.Auth.Unset("refresh", m.rt)
+			} else {
+				primary = ps.Auth.Calls("validate", m.at)
+				ps.Auth.Unset("validate", m.at)
+			}
+			prof := append(ps.Auth.Calls("profile", m.at), ps.Auth.Calls("profile", m.nt)...)
+			ps.Auth.Unset("profile", m.at)
+			ps.Auth.Unset("profile", m.nt)
+			if m.rs == nil || m.rs.Err != nil {
+				rep.Count("client_errors", 1)
+				continue
+			}
+			served := len(ps.Hits(m.rs.ID)) > 0
+			if !served {
+				rep.Count("burst_requests_refused", 1)
+				continue
+			}
+			confirmed := false
+			for _, c := range primary {
+				confirmed = confirmed || c.Status == 200 || c.Status == 201
+			}
+			profOK := false
+			for _, c := range prof {
+				profOK = profOK || c.Status == 200
+			}
+			if !confirmed || (groupGated && !profOK) {
+				what := "no-confirming-exchange"
+				if confirmed {
+					what = "token-confirmed-but-group-membership-not-re-confirmed"
+				}
+				rep.Violate("c04-burst", i, "served-without-due-check site=proxy missing="+what+" concurrent-due-checks="+burstClass(size),
+					fmt.Sprintf("a %s was due; the request was served although the authenticator's log shows %d %s and %d profile calls for this session (%d checks of other users were in flight)", kind, len(primary), kind, len(prof), inflight),
+					map[string]interface{}{"index": i, "host": host, "due": kind, "burst_size": size, "checks_in_flight_when_released": inflight})
+				continue
+			}
+			rep.Count("burst_requests_served_after_own_check", 1)
+		}
+	})
+	if only < 0 {
+		rep.Floor("bursts", len(sizes))
+		rep.Floor("bursts_with_more_than_16_checks_in_flight", 3)
+		rep.Floor("burst_requests_served_after_own_check", 150)
+	}
+}
+
+func burstClass(n int) string {
+	switch {
+	case n <= 16:
+		return "up-to-16"
+	case n <= 32:
+		return "17-to-32"
+	case n <= 64:
+		return "33-to-64"
+	}
+	return "more-than-64"
 }
